@@ -44,7 +44,7 @@ Proof. exact fmt_i16_fits_proof. Qed.
 Print Assumptions C20_i16_fits.
 
 Theorem C20_ptr_bool_fit : (forall p, fits kBytes_ptr (fmt_ptr p)) /\ (forall b, fits kBytes_bool (fmt_bool b)).
-Proof. split; [exact fmt_ptr_fits_proof|exact fmt_bool_fits_proof]. Qed.
+Proof. exact ptr_bool_fit_proof. Qed.
 Print Assumptions C20_ptr_bool_fit.
 
 (* (a'') "never uses garbage": the text handed back is EXACTLY the decimal numeral, for every value of
@@ -62,7 +62,7 @@ Print Assumptions C20_u64_digits.
 Theorem C20_i32_i64_digits :
   (forall v, -2147483648 <= v < 2147483648 -> f_out (fmt_i32 v) = dec_signed v) /\
   (forall v, -9223372036854775808 <= v < 9223372036854775808 -> f_out (fmt_i64 v) = dec_signed v).
-Proof. split; [exact fmt_i32_digits_proof|exact fmt_i64_digits_proof]. Qed.
+Proof. exact i32_i64_digits_proof. Qed.
 Print Assumptions C20_i32_i64_digits.
 
 Theorem C20_16bit_digits :
@@ -78,7 +78,7 @@ Proof. exact fmt_ptr_digits_proof. Qed.
 Print Assumptions C20_ptr_digits.
 
 (* (d) termination of the only counted loop in the layout code: the 5 slots of the exponent buffer are enough
-   and its text is the numeral, for every exponent the source admits (ASSERT(exponent < 1e4)) *)
+   and its text is the numeral, for every exponent the source allows (ASSERT(exponent < 1e4)) *)
 Theorem C20_exponent_digits : forall e, 1 <= e < 10000 -> exp_loop 5 e [] = dec e.
 Proof. exact exp_loop_digits_proof. Qed.
 Print Assumptions C20_exponent_digits.
@@ -92,17 +92,15 @@ Print Assumptions C20_exponent_digits.
 Theorem C20_double_text_denotes_digits :
   forall sign digits dp, digits_ok kBase10MaximalLength digits = true -> -323 <= dp <= 309 ->
   denotes (to_shortest_chars (DFinite sign digits dp)) sign digits dp.
-Proof. intros sign digits dp. exact (to_shortest_denotes_proof kBase10MaximalLength sign digits dp). Qed.
+Proof. exact double_denotes_proof. Qed.
 Print Assumptions C20_double_text_denotes_digits.
 
 (* ... and for floats (ToShortestSingle lays out with the same code) *)
 Theorem C20_float_text_denotes_digits :
   forall sign digits dp, dvalue_ok_float (DFinite sign digits dp) = true ->
   denotes (to_shortest_chars (DFinite sign digits dp)) sign digits dp.
-Proof.
-  intros sign digits dp H. simpl in H. apply andb_true_iff in H. destruct H as [H H2]. apply andb_true_iff in H. destruct H as [H0 H1].
-  apply (to_shortest_denotes_proof 9 sign digits dp H0). split; [apply Z.leb_le in H1|apply Z.leb_le in H2]; lia.
-Qed.
+Proof. exact float_denotes_proof. Qed.
+Print Assumptions C20_float_text_denotes_digits.
 Print Assumptions C20_double_text_denotes_digits.
 
 (* (a') double / float: whatever the digit generator delivers within its documented range
@@ -119,7 +117,7 @@ Print Assumptions C20_float_fits.
 (* the tight bounds: 26 bytes for a double, 23 for a float (both attained, see the Examples) *)
 Theorem C20_double_float_tight :
   (forall d, dvalue_ok_double d = true -> fits 26 (fmt_double d)) /\ (forall d, dvalue_ok_float d = true -> fits 23 (fmt_double d)).
-Proof. split; [exact fmt_double_tight|exact fmt_float_tight]. Qed.
+Proof. exact double_float_tight_proof. Qed.
 Print Assumptions C20_double_float_tight.
 
 (* (b) the in-place protocol: for every sequence of stream operations whose numbers respect their
